@@ -805,15 +805,21 @@ CURRENT_TIER = "quick"
 
 
 def sched_replays(pid, exe, res, extra_args=None, only_search=False):
-    n = 0
+    """Saved regression inputs of the scheduled harnesses: exact (program, schedule) replays and
+    '*.search.txt' files (program + bounded schedule search, robust against step renumbering).
+    All must pass. The searches are independent processes and run in parallel."""
+    import concurrent.futures
+    paths = []
     for path in sorted(glob.glob(os.path.join(VERIF, "replays", pid, "*.search.txt" if only_search else "*.txt"))):
         with open(path) as f:
             head = f.read(600)
         if "# expect: fail" in head:
             continue
-        n += 1
+        paths.append(path)
+    xargs = extra_args or []
+
+    def one(path):
         if path.endswith(".search.txt"):
-            # program + bounded schedule search (robust against step renumbering)
             found = path + ".found"
             try:
                 os.remove(found)
@@ -822,24 +828,33 @@ def sched_replays(pid, exe, res, extra_args=None, only_search=False):
             # quick: every schedule with <= 1 preemption; thorough: <= 2 (capped)
             p = subprocess.run([exe, "--prop", pid, "--search", path] +
                                (["--dfs-p", "2", "--dfs-cap", "30000"] if CURRENT_TIER == "thorough"
-                                else ["--dfs-p", "1", "--dfs-cap", "50000"]) +
-                               (extra_args or []), capture_output=True, text=True, timeout=1800)
-            if p.returncode not in (0, 2):
+                                else ["--dfs-p", "1", "--dfs-cap", "50000"]) + xargs,
+                               capture_output=True, text=True, timeout=1800)
+            return p.returncode, ""
+        return replay_once(exe, ["--prop", pid] + xargs, path)
+
+    with concurrent.futures.ThreadPoolExecutor(max_workers=NCPU) as ex:
+        results = list(ex.map(one, paths))
+    for path, (rc, out) in zip(paths, results):
+        if path.endswith(".search.txt"):
+            found = path + ".found"
+            if rc not in (0, 2):
                 dst_dir = os.path.join(FOUND, pid, "found")
                 os.makedirs(dst_dir, exist_ok=True)
                 dst = os.path.join(dst_dir, os.path.basename(path).replace(".search.txt", ".txt"))
                 if os.path.exists(found):
                     shutil.move(found, dst)
-                    if confirm_replay(exe, ["--prop", pid] + (extra_args or []), dst):
+                    if confirm_replay(exe, ["--prop", pid] + xargs, dst):
                         res.violations.append((dst, "regression: " + os.path.basename(path)))
                 else:
                     shutil.copy(path, dst)
-                    res.violations.append((dst, f"regression (rc={p.returncode}): " + os.path.basename(path)))
+                    res.violations.append((dst, f"regression (rc={rc}): " + os.path.basename(path)))
+            elif rc == 2:
+                res.inconclusive.append("regression search " + os.path.basename(path) + ": harness error")
             continue
-        rc, out = replay_once(exe, ["--prop", pid] + (extra_args or []), path)
-        if rc != 0 and confirm_replay(exe, ["--prop", pid] + (extra_args or []), path):
+        if rc != 0 and confirm_replay(exe, ["--prop", pid] + xargs, path):
             res.violations.append((path, out[-300:]))
-    return n
+    return len(paths)
 
 
 def sched_coverage(pid, counters, distinct, samples, rule, res, nrep):
@@ -994,14 +1009,15 @@ def check_olc(pid, tier, seed):
     os.makedirs(outdir)
     if tier == "quick":
         # 6 of 16 workers: minimal pairs (2 threads x 1 operation), every schedule with <= 2 preemptions;
-        # 2 of 16: "nested" minimal pairs (focus node vs. its direct parent, both at a size-class boundary);
+        # 4 of 16: "nested" minimal pairs (focus node vs. its direct parent, both at a size-class boundary);
         # the others: richer programs, every schedule with <= 1 preemption, plus PCT / random walks
         plans = []
         for i in range(NCPU):
-            if i % 8 == 4:
+            if i % 8 in (4, 7):
                 # minimal pairs in which one thread restructures the focus node and the other its direct parent
-                plans.append(["--seed", str(seed * 1000 + i), "--shape", "nested", "--programs", "20", "--dfs-p", "2",
-                              "--dfs-cap", "12000", "--pct", "20", "--rand", "20"])
+                # (larger trees, longer executions: few programs per worker)
+                plans.append(["--seed", str(seed * 1000 + i), "--shape", "nested", "--programs", "6", "--dfs-p", "2",
+                              "--dfs-cap", "8000", "--pct", "20", "--rand", "20"])
             elif i % 2 == 0:
                 plans.append(["--seed", str(seed * 1000 + i), "--shape", "pairs", "--programs", "14", "--dfs-p", "2",
                               "--dfs-cap", "12000", "--pct", "20", "--rand", "20"])
